@@ -184,6 +184,19 @@ async function read_file_stream(file_path, cfg) {
 async function do_read_csv(req) {
     if (req.mode === 'bulk') return await read_bulk(req.path, req);
     if (req.mode === 'file') return await read_file_stream(req.path, req);
+    if (req.mode === 'file-pieces') {
+        // the file's bytes delivered as stream chunks whose sizes cycle through req.piece_sizes (small and large chunks mixed)
+        let data = fs.readFileSync(req.path);
+        let pieces = [];
+        let pos = 0, k = 0;
+        while (pos < data.length) {
+            let n = req.piece_sizes[k % req.piece_sizes.length];
+            pieces.push(data.subarray(pos, Math.min(pos + n, data.length)));
+            pos += n;
+            k += 1;
+        }
+        return await read_stream(pieces, req);
+    }
     return await read_stream(bufs_from(req.hex, req.cuts), req);
 }
 
